@@ -258,7 +258,7 @@ func (s *Service) GetJournals(ctx context.Context, tagsCond *lql.Source, maxLimi
 
 		// keep the journal in result map
 		res[tags.Line()] = j
-		if len(res) == maxLimit {
+		if len(res) > maxLimit {
 			err1 = errors.Errorf("Limit exceeds. Expected no more than %d journals, but at least %d alredy found ", maxLimit, maxLimit+1)
 			return false
 		}
